@@ -428,6 +428,12 @@ class RowWalker(SymWalker):
                     comp = ast.DictComp(key=a.targets[0].slice, value=a.value, generators=[ast.comprehension(target=st.target, iter=it, ifs=[], is_async=0)])
                     env[d] = subst(comp, {k: v for k, v in env.items() if k not in {n.id for n in ast.walk(st.target) if isinstance(n, ast.Name)}})
                 return
+            if isinstance(st, ast.Assign) and len(st.targets) == 1 and isinstance(st.targets[0], ast.Tuple) and isinstance(st.value, ast.Tuple) and len(st.targets[0].elts) == len(st.value.elts):
+                vals = [walker.value(v, env, depth) for v in st.value.elts]
+                for t_, v_ in zip(st.targets[0].elts, vals):
+                    if isinstance(t_, ast.Name):
+                        env[t_.id] = v_
+                return
             if isinstance(st, (ast.Assign, ast.AnnAssign)) and getattr(st, "value", None) is not None:
                 tg = st.targets[0] if isinstance(st, ast.Assign) else st.target
                 if isinstance(tg, ast.Name):
